@@ -12,7 +12,7 @@ import warnings
 
 from vf import fakehttp as F
 from vf import xstate
-from vf.core import HarnessError, Tally
+from vf.core import vacuous, HarnessError, Tally
 
 LEVEL = "model_checking"
 UTC = datetime.timezone.utc
@@ -314,13 +314,13 @@ def run(ctx):
     tally = ctx.pmap(work, [(c, depth) for c in cfgs], chunk=1)
     md = tally.counts.pop("max_depth", 0)
     if tally.counts.get("states", 0) < 50 or tally.counts.get("transitions", 0) < 1000:
-        raise HarnessError(f"vacuous: {tally.counts}")
+        vacuous(tally, f"vacuous: {tally.counts}")
     cov = {
-        "states": tally.counts["states"],
-        "transitions": tally.counts["transitions"],
-        "traces_validated_against_impl": tally.counts["transitions"],
+        "states": tally.counts.get("states", 0),
+        "transitions": tally.counts.get("transitions", 0),
+        "traces_validated_against_impl": tally.counts.get("transitions", 0),
         "samples": tally.samples[:3],
-        "systems": tally.counts["systems"],
+        "systems": tally.counts.get("systems", 0),
         "systems_at_fixpoint": tally.counts.get("fixpoints", 0),
         "depth_bound": depth,
         "max_depth_with_new_state": md,
